@@ -371,6 +371,10 @@ void Transportation1dSolver::checkSolutionOptimal(const Solution &alloc) const {
         snk = nxt - 1;
         break;
       }
+      if (nxt + 1 == nbSinks()) {
+        // Nothing can move further right from the last sink
+        break;
+      }
       gain += gainRight[nxt];
     }
   }
@@ -387,6 +391,10 @@ void Transportation1dSolver::checkSolutionOptimal(const Solution &alloc) const {
           throw std::runtime_error("Found an improving left move");
         }
         snk = nxt + 1;
+        break;
+      }
+      if (nxt == 0) {
+        // Nothing can move further left from the first sink
         break;
       }
       gain += gainLeft[nxt];
